@@ -29,6 +29,7 @@ SO = arg("--so")
 REPO = os.environ.get("VERIF_REPO", "/repo")
 OUT = arg("--out")          # file to which the first divergence (with its trace position) is written
 MAXREP = int(arg("--max-report", "5"))
+MODEL_CMP = "--model-comparison" in sys.argv
 
 def load_ext(tmp):
     dst = os.path.join(tmp, "ext")
@@ -74,14 +75,43 @@ def to_json(rec):
             d[p] = {"hash": h, "mtime": int(n)}
     return json.dumps(d)
 
+class Names:
+    """Output files get production-like names in every second evaluation: a sub-directory, a dot, an
+    extension ("j01a" -> "out.d/j01a.tsv"). The map is injective and keeps the order of the simulator's
+    names (its alphabet is [0-9a-z], '.' and '/' sort before it, ':' and '!' are never part of a name), so the
+    evaluator must behave identically; everything that crosses the API is translated both ways."""
+    def __init__(self, on):
+        self.on = on
+    def part(self, p):
+        return ("out.d/" + p + ".tsv") if self.on and p else p
+    def job(self, jid):
+        return ":::".join(self.part(x) for x in jid.split(":::")) if self.on else jid
+    def key(self, k):
+        if not self.on:
+            return k
+        a, sep, b = k.partition("!!!")
+        return self.job(a) + sep + (self.job(b) if b else "")
+    def lines(self, txt):
+        return "\n".join(self.job(l) for l in txt.split("\n")) if self.on and txt else txt
+    def record(self, rec):
+        if not self.on or not rec:
+            return rec
+        out = []
+        for item in rec.split("|"):
+            p, rest = item.split("=", 1)
+            out.append(self.part(p) + "=" + rest)
+        return "|".join(out)
+    def jobs(self, lst):
+        return sorted(self.job(j) for j in lst)
+
 class Job:
     def __init__(self, outputs): self.outputs = outputs
     def compare_hashes(self, a, b): return a["hash"] == b["hash"]
 
 class Runner:
-    def __init__(self, jobs):
-        self.jobs = {j["id"]: Job(j["parts"]) for j in jobs}
-        self.job_inputs = {j["id"]: j["consumed"] for j in jobs}
+    def __init__(self, jobs, nm):
+        self.jobs = {nm.job(j["id"]): Job([nm.part(p) for p in j["parts"]]) for j in jobs}
+        self.job_inputs = {nm.job(j["id"]): [nm.part(p) for p in j["consumed"]] for j in jobs}
 
 class Disk:
     def __init__(self, root):
@@ -92,6 +122,9 @@ class Disk:
         for p in self.have - want:
             os.unlink(os.path.join(self.root, p))
         for p in want - self.have:
+            d = os.path.dirname(p)
+            if d:
+                os.makedirs(os.path.join(self.root, d), exist_ok=True)
             open(os.path.join(self.root, p), "w").close()
         self.have = want
 
@@ -136,10 +169,27 @@ def kind_of(exc):
 def replay_eval(ext, cmpmod, t, disk):
     """returns None or (call index, what, expected, got)"""
     semantic = t["cmp"] == "Semantic"
-    conv = to_json if semantic else (lambda r: r)
-    runner = Runner(t["jobs"])
-    names = {j["id"]: j["names"] for j in t["jobs"]}
-    if semantic:
+    nm = Names(t["hash_seed"] % 2 == 1)
+    # under renaming the record text is also wrapped in white space (pretty-printed JSON ends in a newline):
+    # the evaluator and the glue must hand records through verbatim
+    wrap = (lambda x: " " + x + "\n") if nm.on else (lambda x: x)
+    conv = (lambda r: wrap(to_json(nm.record(r)))) if semantic else (lambda r: wrap(nm.record(r)))
+    runner = Runner(t["jobs"], nm)
+    names = {nm.job(j["id"]): nm.lines(j["names"]) for j in t["jobs"]}
+    if semantic and MODEL_CMP:
+        # the production comparison differs from the model the search uses (reported separately): the glue is
+        # then checked with the model comparison, so that its verdict does not depend on that difference
+        def cmp_cb(up, down, last, now):
+            l, n = json.loads(last), json.loads(now)
+            outs = runner.jobs[up].outputs
+            if down == "!!!":
+                return any(l[ip]["hash"] != n[ip]["hash"] for ip in outs)
+            for ip in runner.job_inputs[down]:
+                if ip in outs:
+                    if ip not in l or l[ip]["hash"] != n[ip]["hash"]:
+                        return True
+            return False
+    elif semantic:
         def cmp_cb(up, down, last, now):
             return cmpmod.history_is_different(runner, up, down, last, now)
     else:
@@ -147,31 +197,33 @@ def replay_eval(ext, cmpmod, t, disk):
             return last != now
     def names_cb(job_id):
         return names[job_id]
-    hist = {}
-    for k in sorted(t["history"]):
-        v = t["history"][k]
-        hist[k] = v if k.endswith("!!!") else conv(v)
-    disk.sync(t["disk0"])
+    def conv_hist(h):
+        out = {}
+        for k in sorted(h):
+            v = h[k]
+            out[nm.key(k)] = nm.lines(v) if k.endswith("!!!") else conv(v)
+        return out
+    hist = conv_hist(t["history"])
+    disk.sync([nm.part(p) for p in t["disk0"]])
     ext.verif_set_hash_seed(t["hash_seed"])
     e = ext.PPG2Evaluator(hist, cmp_cb, names_cb)
     for n in t["nodes"]:
         kind = next(j["kind"] for j in t["jobs"] if j["id"] == n)
-        e.add_node(n, kind)
+        e.add_node(nm.job(n), kind)
     for (down, up) in t["edges"]:
-        e.add_edge(down, up)
-    ncalls = 0
+        e.add_edge(nm.job(down), nm.job(up))
     for ci, c in enumerate(t["calls"]):
         what = c["c"]
         if what != "fin":
-            disk.sync(c["disk"])
-        ncalls += 1
+            disk.sync([nm.part(p) for p in c["disk"]])
+        jid = nm.job(c["j"]) if c.get("j") else None
         got_val = None
         try:
             if what == "startup": e.event_startup()
-            elif what == "start": e.event_now_running(c["j"])
-            elif what == "ok": e.event_job_success(c["j"], conv(c["a"]))
-            elif what == "fail": e.event_job_failure(c["j"])
-            elif what == "ack": e.event_job_cleanup_done(c["j"])
+            elif what == "start": e.event_now_running(jid)
+            elif what == "ok": e.event_job_success(jid, conv(c["a"]))
+            elif what == "fail": e.event_job_failure(jid)
+            elif what == "ack": e.event_job_cleanup_done(jid)
             elif what == "reconsider": e.reconsider_all_jobs()
             elif what == "abort": e.event_abort()
             elif what == "fin": got_val = e.is_finished()
@@ -189,10 +241,9 @@ def replay_eval(ext, cmpmod, t, disk):
                 return (ci, "is_finished", c["r"], got)
             continue
         if got != coarse(c["r"]):
-            return (ci, what + "(" + str(c["j"]) + ") result", c["r"], got)
+            return (ci, what + "(" + str(c.get("j")) + ") result", c["r"], got)
         if what == "hist" and got == "ok":
-            exp = json.loads(c["a"])
-            exp = {k: (v if k.endswith("!!!") else conv(v)) for k, v in exp.items()}
+            exp = conv_hist(json.loads(c["a"]))
             if exp != got_val:
                 diff = sorted(k for k in set(exp) | set(got_val) if exp.get(k) != got_val.get(k))
                 return (ci, "new_history differs at keys " + ", ".join(diff[:6]), {k: exp.get(k) for k in diff[:6]}, {k: got_val.get(k) for k in diff[:6]})
@@ -210,14 +261,23 @@ def replay_eval(ext, cmpmod, t, disk):
                 raise
             except BaseException as ex:  # noqa
                 return (ci, "queries after " + what, q, kind_of(ex))
+            want = {k: nm.jobs(q[k]) for k in ("ready", "running", "cleanup", "uf")}
+            want["next"] = nm.job(q["next"]) if q["next"] is not None else None
+            if nm.on:
+                # which ready job is named first depends on the hash of the id strings, which the renaming
+                # changes: under renaming only "names a ready job, or nothing when nothing is ready" is checked
+                ok_next = (gq["next"] in gq["ready"]) if gq["ready"] else gq["next"] is None
+                if not ok_next:
+                    return (ci, "next_job_ready_to_run after " + what, "a member of " + str(gq["ready"]), gq["next"])
+                want["next"] = gq["next"]
             for k in ("ready", "next", "running", "cleanup", "uf"):
-                if gq[k] != q[k]:
-                    return (ci, "query '" + k + "' after " + what + "(" + str(c["j"]) + ")", q[k], gq[k])
+                if gq[k] != want[k]:
+                    return (ci, "query '" + k + "' after " + what + "(" + str(c.get("j")) + ")", want[k], gq[k])
     # what the engine reports as every job's output at the end
     if t.get("engine_error") is None:
         for jid, exp in sorted(t["outputs"].items()):
             try:
-                got = e.get_job_output(jid)
+                got = e.get_job_output(nm.job(jid))
             except KeyboardInterrupt:
                 raise
             except ValueError:
@@ -271,7 +331,9 @@ def main():
                     print("DIVERGENCE " + json.dumps(info))
                 if first is None:
                     first = info
-        summary = {"evaluations": n, "engine_calls": calls, "divergences": div, "call_kinds": kinds}
+        summary = {"evaluations": n, "engine_calls": calls, "divergences": div, "call_kinds": kinds,
+                   "comparison": "model (production comparison differs from it)" if MODEL_CMP else "real history_comparisons.py",
+                   "renamed_evaluations": "every evaluation with an odd hash seed uses production-like file names"}
         print("pybridge: " + json.dumps(summary, sort_keys=True))
         if OUT:
             with open(OUT, "w") as f:
